@@ -871,3 +871,175 @@ impl Modeled for SkipOrders {
 		1
 	}
 }
+
+/// One encoded primitive field next to a NON-zero-sized skipped sibling: the single-field forwarding
+/// applies, but the struct's memory is not the field's memory (sequences of it must not go bulk).
+#[derive(Encode, Decode, DecodeWithMemTracking, MaxEncodedLen, PartialEq, Debug, Clone)]
+pub struct OneAndSkipped {
+	pub x: u32,
+	#[codec(skip)]
+	pub cache: u64,
+}
+impl Modeled for OneAndSkipped {
+	fn ty(d: usize) -> String {
+		"adt struct 2 p u32 s u64".into()
+	}
+	fn val(&self, out: &mut String, c: bool) {
+		write!(out, "L 1 n{}", self.x).unwrap();
+	}
+	fn gen(g: &mut G) -> Self {
+		OneAndSkipped { x: u32::gen(g), cache: 0 }
+	}
+	fn min_len() -> usize {
+		4
+	}
+}
+/// ... and an over-aligned newtype (padding after the field).
+#[derive(Encode, Decode, DecodeWithMemTracking, MaxEncodedLen, PartialEq, Debug, Clone)]
+#[repr(align(16))]
+pub struct OneAligned(pub u16);
+impl Modeled for OneAligned {
+	fn ty(d: usize) -> String {
+		"adt struct 1 p u16".into()
+	}
+	fn val(&self, out: &mut String, c: bool) {
+		write!(out, "L 1 n{}", self.0).unwrap();
+	}
+	fn gen(g: &mut G) -> Self {
+		OneAligned(u16::gen(g))
+	}
+	fn min_len() -> usize {
+		2
+	}
+}
+
+/// Field-less enum mixing explicit discriminants and implicit positions: the codec index of an
+/// implicit variant is its POSITION (B = 1, D = 3), not the Rust discriminant (6, 10).
+#[derive(Encode, Decode, DecodeWithMemTracking, MaxEncodedLen, PartialEq, Eq, PartialOrd, Ord, Debug, Clone, Copy)]
+pub enum MixedDisc {
+	A = 5,
+	B,
+	C = 9,
+	D,
+}
+impl Modeled for MixedDisc {
+	fn ty(d: usize) -> String {
+		"adt enum 4 0 - 5 0 0 - - 0 0 - 9 0 0 - - 0".into()
+	}
+	fn val(&self, out: &mut String, c: bool) {
+		let idx = match self {
+			MixedDisc::A => 5,
+			MixedDisc::B => 1,
+			MixedDisc::C => 9,
+			MixedDisc::D => 3,
+		};
+		write!(out, "V {} L 0", idx).unwrap();
+	}
+	fn gen(g: &mut G) -> Self {
+		[MixedDisc::A, MixedDisc::B, MixedDisc::C, MixedDisc::D][g.rng.below(4) as usize]
+	}
+	fn min_len() -> usize {
+		1
+	}
+}
+
+/// A generic enum with more than eight encodable variants (instantiated with a narrow and with a
+/// wide parameter, the narrow one first).
+#[derive(Encode, Decode, DecodeWithMemTracking, MaxEncodedLen, PartialEq, Debug, Clone)]
+pub enum BigGen<T> {
+	V0,
+	V1(u8),
+	V2(T),
+	V3(u16),
+	V4,
+	V5(T, u8),
+	V6,
+	V7(bool),
+	V8,
+	V9(Option<T>),
+}
+impl<T: Modeled> Modeled for BigGen<T> {
+	fn ty(d: usize) -> String {
+		format!(
+			"adt enum 10 0 - - 0 0 - - 1 p u8 0 - - 1 p {} 0 - - 1 p u16 0 - - 0 0 - - 2 p {} p u8 0 - - 0 0 - - 1 p bool 0 - - 0 0 - - 1 p {}",
+			T::ty(d), T::ty(d), Option::<T>::ty(d)
+		)
+	}
+	fn val(&self, out: &mut String, c: bool) {
+		match self {
+			BigGen::V0 => out.push_str("V 0 L 0"),
+			BigGen::V1(x) => write!(out, "V 1 L 1 n{}", x).unwrap(),
+			BigGen::V2(x) => {
+				out.push_str("V 2 L 1 ");
+				x.val(out, c)
+			},
+			BigGen::V3(x) => write!(out, "V 3 L 1 n{}", x).unwrap(),
+			BigGen::V4 => out.push_str("V 4 L 0"),
+			BigGen::V5(x, y) => {
+				out.push_str("V 5 L 2 ");
+				x.val(out, c);
+				write!(out, " n{}", y).unwrap()
+			},
+			BigGen::V6 => out.push_str("V 6 L 0"),
+			BigGen::V7(x) => {
+				out.push_str("V 7 L 1 ");
+				x.val(out, c)
+			},
+			BigGen::V8 => out.push_str("V 8 L 0"),
+			BigGen::V9(x) => {
+				out.push_str("V 9 L 1 ");
+				x.val(out, c)
+			},
+		}
+	}
+	fn gen(g: &mut G) -> Self {
+		match g.rng.below(10) {
+			0 => BigGen::V0,
+			1 => BigGen::V1(u8::gen(g)),
+			2 => BigGen::V2(T::gen(g)),
+			3 => BigGen::V3(u16::gen(g)),
+			4 => BigGen::V4,
+			5 => BigGen::V5(T::gen(g), u8::gen(g)),
+			6 => BigGen::V6,
+			7 => BigGen::V7(bool::gen(g)),
+			8 => BigGen::V8,
+			_ => BigGen::V9(Option::<T>::gen(g)),
+		}
+	}
+	fn min_len() -> usize {
+		1
+	}
+}
+
+/// A bounded byte vector whose bound is a type parameter, and a struct using it with
+/// `mel_bound(skip_type_params(..))`: the parameter carries no `MaxEncodedLen` bound, but the field
+/// that mentions it is real data. (Not `Modeled`: only the declared-maximum oracle runs on it.)
+pub trait Lim {
+	const N: u32;
+}
+#[derive(Clone, Debug, PartialEq)]
+pub struct L32;
+impl Lim for L32 {
+	const N: u32 = 32;
+}
+#[derive(Encode, Decode, Clone, Debug, PartialEq)]
+pub struct BoundedBytes<S>(pub Vec<u8>, pub core::marker::PhantomData<S>);
+impl<S: Lim> MaxEncodedLen for BoundedBytes<S> {
+	fn max_encoded_len() -> usize {
+		use parity_scale_codec::CompactLen;
+		Compact::<u32>::compact_len(&S::N) + S::N as usize
+	}
+}
+#[derive(Encode, Decode, MaxEncodedLen, Clone, Debug, PartialEq)]
+#[codec(mel_bound(skip_type_params(S)))]
+pub struct NamedBounded<S: Lim> {
+	pub id: u32,
+	pub name: BoundedBytes<S>,
+}
+#[derive(Encode, Decode, MaxEncodedLen, Clone, Debug, PartialEq)]
+#[codec(mel_bound(skip_type_params(S)))]
+pub enum MessageBounded<S: Lim> {
+	Empty,
+	Text(#[codec(compact)] u32, BoundedBytes<S>),
+	Tag(u8),
+}
